@@ -84,7 +84,7 @@ pub fn run(args: &Args, corpus: &[String]) -> serde_json::Value {
     rep.notes.push(format!("all strings of length <= {max_len} over {{a,\\n,\\r,\\t,é}} x all byte offsets"));
     // corpus files and random long texts: every offset
     let mut rng = Rng::new(args.seed ^ 0x25);
-    let n_files = if args.thorough() { corpus.len() } else { corpus.len().min(40) };
+    let n_files = args.num("files", if args.thorough() { corpus.len() as u64 } else { corpus.len().min(40) as u64 }) as usize;
     for i in 0..n_files {
         let t = &corpus[(i + rng.below(corpus.len().max(1))) % corpus.len()];
         if t.len() < 20000 {
